@@ -84,6 +84,7 @@ class tps_coefficients_contract(object):
 
     def __init__(self, ctx, tag='tps'):
         self.ctx, self.tag, self.n = ctx, tag, 0
+        self.memo = {}
 
     def __enter__(self):
         from menpo.transform import thinplatesplines as M
@@ -105,10 +106,17 @@ class tps_coefficients_contract(object):
             tps.y = np.hstack([tps.v, np.zeros([2, 3], dtype=object)])
             L = tps.l
             ctx.check_eq('%s%d/_build_coefficients/requires-L-symmetric' % (outer.tag, outer.n), L, L.T)
-            C = ctx.reals('%s%d_C' % (outer.tag, outer.n), (L.shape[0], 2))
+            # the contract is functional: equal (L, Y) give the same coefficients
+            from vp import poly
+            from vp.sreal import lift
+            key = tuple(poly.canon_key(lift(e)) for e in list(np.asarray(L).flat) + list(np.asarray(tps.y).flat))
+            C = outer.memo.get(key)
+            if C is None:
+                C = ctx.reals('%s%d_C' % (outer.tag, outer.n), (L.shape[0], 2))
+                ctx.assume_eq(L.dot(C), tps.y.T, 'contract of _build_coefficients: L.C = Y^T', bulk=True)
+                outer.memo[key] = C
             outer.n += 1
-            ctx.assume_eq(L.dot(C), tps.y.T, 'contract of _build_coefficients: L.C = Y^T', bulk=True)
-            tps.coefficients = C
+            tps.coefficients = C.copy()
         M.ThinPlateSplines._build_coefficients = stub
         return self
 
